@@ -180,3 +180,49 @@ Definition mask_file cellf coords with_coords w p (vs : list mvar) : mres :=
 Definition impl_mask := mask_file impl_mcell.
 Definition spec_mask := mask_file spec_mcell.
 
+
+(* ---- what the model transcribes from the source (tie T: compared with Gen/C06Src.v, which
+   harness/props/c06.py translate() re-reads from core/_files.py and core/_functions.py) ------ *)
+Require Import String.
+Local Open Scope string_scope.
+
+(* PseudoNetCDFFile.__op__(self, lhs) = pncbo(op=<symbol>, ifile1=self, ifile2=lhs, coordkeys=self._operator_exclude_vars) *)
+Definition model_ops : list (string * string) :=
+  [("__add__", "+"); ("__sub__", "-"); ("__mul__", "*"); ("__truediv__", "/"); ("__floordiv__", "//");
+   ("__pow__", "**"); ("__and__", "&"); ("__or__", "|"); ("__xor__", "^"); ("__mod__", "%");
+   ("__lt__", "<"); ("__gt__", ">"); ("__eq__", "=="); ("__le__", "<="); ("__ge__", ">="); ("__ne__", "!=")].
+
+(* operator class used by impl_cell (numpy.ma domained operators / power / the rest) *)
+Definition op_cls (op : string) : nat :=
+  if (op =? "/") || (op =? "//") || (op =? "%") then 1%nat else if op =? "**" then 2%nat else 0%nat.
+
+(* mask(): the chain inside the variable loop, in order: (keyword tested, numpy.ma function, arguments) *)
+Definition model_chain : list (string * (string * string)) :=
+  [("where", ("masked_where", "where, vals"));
+   ("greater", ("masked_greater", "vals, greater"));
+   ("greater_equal", ("masked_greater_equal", "vals, greater_equal"));
+   ("less", ("masked_less", "vals, less"));
+   ("less_equal", ("masked_less_equal", "vals, less_equal"));
+   ("values", ("masked_values+masked_where", "np.ma.getdata(vals), values"));
+   ("equal", ("masked_equal", "vals, equal"));
+   ("invalid", ("masked_invalid", "vals"))].
+
+(* pncbo: the statements impl_binop / impl_cell stand for *)
+Record pncbo_src := PSrc {
+  ps_expr : bool;        (* eval('in1var[...] %s in2var[...]' % op): left operand first, the operator between *)
+  ps_view_ma : bool;     (* .view(np.ma.MaskedArray): operand masks survive *)
+  ps_nonfinite : bool;   (* np.ma.masked_where(~np.isfinite(np.ma.getdata(outval)), outval) *)
+  ps_coord_left : bool;  (* if k in coordkeys: tmpfile.copyVariable(in1var, key=k) *)
+  ps_missing_left : bool;(* elif k not in ifile2.variables.keys(): ... tmpfile.copyVariable(in1var, key=k) *)
+  ps_loop_left : bool    (* for k in ifile1.variables.keys(): result variables = left file's, in its order *)
+}.
+Definition model_pncbo : pncbo_src := PSrc true true true true true true.
+
+(* mask(): statements around the chain *)
+Record mask_src := MSrc {
+  ms_dims_tuple : bool;     (* maskdims = tuple(dims) *)
+  ms_applies : bool;        (* maskdims == vv.dimensions or (maskdims is None and where.shape == vals.shape) *)
+  ms_coords_skip : bool;    (* if vk in coordkeys and not coords: newvar[...] = vv[...]; continue *)
+  ms_assign : bool          (* newvar[...] = vals[...] *)
+}.
+Definition model_mask : mask_src := MSrc true true true true.
